@@ -6,7 +6,7 @@ CONSTANTS
   Costs = {10}
   Bals = {5, 7}
   Vals = {}
-  MaxClosed = 4
+  MaxClosed = 1
   MaxBal = 1
   MaxVals = 0
 INVARIANTS TypeC16 GenerateIsBatch AccSheet WinRateSane ProfitFactorSane OrderFreeC16
